@@ -111,6 +111,7 @@ type PipeCfg struct {
 	// NoRedirectFollow: the operator has switched the cluster client's following of MOVED / ASK answers off
 	// (clusterOptions.handleMoveErr / handleAskErr: false): a redirect is an error the replay has to deal with
 	NoRedirectFollow bool
+	FailoverBias     int  // >0: weight of the bidirectional harness's failover-continue action (default 3)
 	NoRestore        bool // snapshot replay by native commands instead of RESTORE
 	// the tool's whole start path: a process start runs syncer.newOutput's checkpoint.UpdateCheckpoint (index entry,
 	// "none yet" marker with a modification time) before StartPoint; AfterFullSync: the stream follows a full sync,
@@ -313,6 +314,10 @@ type PipeSim struct {
 	prop     string
 	// loadingLeft > 0: the target was restarted and is still loading its dataset; the next loadingLeft requests that
 	// Redis does not serve while loading are answered -LOADING (fault target_loading, crash harness)
+	// prevID: the replication id the source had before its last fail-over (its second id); forcePath: the next
+	// incarnation first moves the bookkeeping to the current id, as a process start does (fault source_failover_continue)
+	prevID      string
+	forcePath   bool
 	loadingLeft int
 	loadingSkip int // requests served before the refusals begin (the load - or a blocking script - ends or begins in the middle of the start)
 }
@@ -353,6 +358,14 @@ func NewPipeSim(r *Run, prop string, cfg PipeCfg, st *Stream) *PipeSim {
 
 // startPath is what a process start does on the target before the output exists (syncer.newOutput -> updateCheckpoint),
 // through the real code; first: also what the end of the preceding full sync left behind (RedisOutput.setCheckpoint).
+// ids: what the input reports as the source's replication ids (master_replid, master_replid2).
+func (ps *PipeSim) ids() []string {
+	if ps.prevID != "" {
+		return []string{ps.runID, ps.prevID}
+	}
+	return []string{ps.runID, strings.Repeat("0", 40)}
+}
+
 func (ps *PipeSim) startPath(first bool) error {
 	cli, err := client.NewRedis(ps.cfg.outputConfig(ps.runID, ps.cpName).Redis)
 	if err != nil {
@@ -360,7 +373,7 @@ func (ps *PipeSim) startPath(first bool) error {
 	}
 	defer cli.Close()
 	// the ids the input reports: master_replid and master_replid2 (all zeros when the source never failed over)
-	if err = checkpoint.UpdateCheckpoint(cli, ps.cpName, []string{ps.runID, strings.Repeat("0", 40)}); err != nil {
+	if err = checkpoint.UpdateCheckpoint(cli, ps.cpName, ps.ids()); err != nil {
 		return err
 	}
 	if first && ps.cfg.AfterFullSync {
@@ -404,10 +417,12 @@ func (ps *PipeSim) startIncarnation() {
 	ps.incs = append(ps.incs, in)
 	ps.r.Logf("start incarnation %d", id)
 	fresh := !reused
-	in.pathDone = !(ps.cfg.StartPath && fresh)
+	forced := ps.forcePath && fresh
+	ps.forcePath = false
+	in.pathDone = !((ps.cfg.StartPath || forced) && fresh)
 	go func() {
-		if ps.cfg.StartPath && fresh {
-			if err := ps.startPath(!ps.pathEver); err != nil {
+		if (ps.cfg.StartPath || forced) && fresh {
+			if err := ps.startPath(!ps.pathEver && !forced); err != nil {
 				in.mu.Lock()
 				in.spErr = err
 				in.phase = 2
@@ -419,7 +434,11 @@ func (ps *PipeSim) startIncarnation() {
 			in.pathDone = true
 			in.mu.Unlock()
 		}
-		sp, err := in.ro.StartPoint(ctx, []string{ps.runID})
+		spIDs := []string{ps.runID}
+		if ps.prevID != "" {
+			spIDs = ps.ids()
+		}
+		sp, err := in.ro.StartPoint(ctx, spIDs)
 		in.mu.Lock()
 		in.sp, in.spErr = sp, err
 		in.mu.Unlock()
